@@ -23,6 +23,9 @@ type mutant struct {
 	Replace  string   `json:"replace"`
 	Find2    string   `json:"find2,omitempty"` // optional second edit in the same file
 	Replace2 string   `json:"replace2,omitempty"`
+	FileB    string   `json:"file_b,omitempty"` // optional edit in a second file (e.g. a struct field the first edit uses)
+	FindB    string   `json:"find_b,omitempty"`
+	ReplaceB string   `json:"replace_b,omitempty"`
 	Expect   string   `json:"expect"` // substring of the violation key that must appear
 	What     string   `json:"what"`
 }
@@ -67,6 +70,15 @@ func runMutantChild(spec *propSpec, repo string, m mutant) int {
 		text = strings.Replace(text, m.Find2, m.Replace2, 1)
 	}
 	overlayFiles = map[string][]byte{path: []byte(text)}
+	if m.FileB != "" {
+		pathB := filepath.Join(repo, m.FileB)
+		srcB, err := os.ReadFile(pathB)
+		if err != nil || strings.Count(string(srcB), m.FindB) != 1 {
+			fmt.Printf("MUTANT-SKIP second file %s: find text not present exactly once\n", m.FileB)
+			return 0
+		}
+		overlayFiles[pathB] = []byte(strings.Replace(string(srcB), m.FindB, m.ReplaceB, 1))
+	}
 	needSSA := false
 	for _, r := range spec.Rules {
 		if r.NeedSSA {
